@@ -20,7 +20,23 @@ def object_events(entry, enc, tid0, rng, quick, run):
     enum_k = 12 if quick else 16
     evs = [fec.construct_event(entry, enc, tid0), fec.advertise_event(entry, enc, tid0 + 1, enum_k)]
     run.case((entry.name,), nontrivial=int(enc.code_dimension) >= 1 and int(enc.code_length) > 1)
-    return evs, tid0 + 1
+    # the advertised parameters describe the words the ENCODER produces, also when a row holds several messages (the documented (..., b*k) form):
+    # every n-bit word of such an output is judged as an encoding of its own message
+    import torch
+    n, k = int(enc.code_length), int(enc.code_dimension)
+    tid = tid0 + 1
+    for b in (2, 3):
+        ms = [rng.randrange(1 << k) for _ in range(b)]
+        try:
+            out = enc(torch.cat([fec.from_int(m, k) for m in ms]).unsqueeze(0)).reshape(-1)
+        except Exception:
+            continue
+        if out.numel() != b * n:
+            continue
+        for j, m in enumerate(ms):
+            tid += 1
+            evs.append({"ev": "Encode", "tid": tid, "m": fec.limbs(m, k), "c": fec.limbs(fec.to_int(out[j * n:(j + 1) * n]), n), "blocks_per_row": b})
+    return evs, tid
 
 
 def mc_macwilliams(run):
@@ -60,6 +76,13 @@ def run(run):
     seen = set()
     for m in mism:
         t, line, clause = m[0], m[1], m[2]
+        if events[line - 1]["ev"] == "Encode" and events[line - 1].get("blocks_per_row"):
+            entry = owners[line - 1]
+            if (entry.name, "multi") not in seen:
+                seen.add((entry.name, "multi"))
+                run.violate(entry.component, "words_of_a_multi_block_row_are_words_of_the_advertised_code", entry.config(),
+                            {"object": entry.name, "event": events[line - 1]}, "a word the encoder produced for a row of several messages is not the encoding of its message")
+            continue
         if events[line - 1]["ev"] != "Advertise":
             continue        # Construct clauses belong to C01
         if clause.startswith("harness_"):
